@@ -15,6 +15,9 @@ import (
 
 // fieldsIn returns the names of the fields of struct type typ (by short name) that value v is
 // computed from (through conversions, calls, arithmetic).
+// fieldsEnv: parameter -> argument bindings of the helper call the codec extraction is inside of.
+var fieldsEnv map[ssa.Value]ssa.Value
+
 func fieldsIn(v ssa.Value, typ string, seen map[ssa.Value]bool, depth int) []string {
 	if v == nil || seen[v] || depth > 8 {
 		return nil
@@ -27,6 +30,11 @@ func fieldsIn(v ssa.Value, typ string, seen map[ssa.Value]bool, depth int) []str
 		}
 	}
 	switch x := v.(type) {
+	case *ssa.Parameter:
+		// inside a new helper: the argument of the call being followed stands for the parameter
+		if r, ok := fieldsEnv[x]; ok && r != v {
+			out = append(out, fieldsIn(r, typ, seen, depth+1)...)
+		}
 	case *ssa.Field:
 		add(fieldOf(x))
 		out = append(out, fieldsIn(x.X, typ, seen, depth+1)...)
@@ -171,6 +179,7 @@ func (c *Ctx) codec() *codecTables {
 						if !ok {
 							continue
 						}
+						fieldsEnv = env
 						pos := call.Pos()
 						sub := call.Pos()
 						if base.IsValid() {
@@ -580,12 +589,16 @@ func constTrips(b *ssa.BasicBlock) int {
 			continue
 		}
 		cm, truth, ok := cmpOf(iff.Cond)
-		if !ok || cm.op != token.LSS || !truth {
+		if !ok || (cm.op != token.LSS && cm.op != token.LEQ) || !truth {
 			continue
 		}
 		k, isK := cm.y.(*ssa.Const)
 		if !isK || k.Value == nil {
 			continue
+		}
+		inclusive := int64(0)
+		if cm.op == token.LEQ {
+			inclusive = 1 // "i <= K" runs once more than "i < K"
 		}
 		// counter: phi(0, phi+1) or its increment
 		var phi *ssa.Phi
@@ -620,9 +633,9 @@ func constTrips(b *ssa.BasicBlock) int {
 			continue
 		}
 		// "for range K" style: phi starts at -1 and the incremented value is compared
-		n := k.Int64() - start
+		n := k.Int64() - start + inclusive
 		if _, isInc := cm.x.(*ssa.BinOp); isInc {
-			n = k.Int64() - (start + 1)
+			n = k.Int64() - (start + 1) + inclusive
 		}
 		if n > 0 && n < 64 {
 			return int(n)
